@@ -49,6 +49,34 @@ ValidUtf8(s) ==
          /\ WellFormedChar(SubSeq(s, 1, w))
          /\ ValidUtf8(SubSeq(s, w + 1, Len(s)))
 
+\* std: core::str::from_utf8 with its error.  Result: [ok |-> TRUE] or [ok |-> FALSE, upto |-> valid_up_to,
+\* elen |-> error_len, 0 standing for None (the input ends inside a sequence that was valid so far)].
+\* Second-byte ranges per lead byte (shortest form, no surrogates, <= U+10FFFF): E0 A0..BF, E1..EC 80..BF, ED 80..9F,
+\* EE..EF 80..BF, F0 90..BF, F1..F3 80..BF, F4 80..8F.
+SecondOK(ld, b) ==
+    CASE ld = 224 -> 160 <= b /\ b <= 191
+      [] ld = 237 -> 128 <= b /\ b <= 159
+      [] ld = 240 -> 144 <= b /\ b <= 191
+      [] ld = 244 -> 128 <= b /\ b <= 143
+      [] OTHER -> IsCont(b)
+Utf8Bad(upto, elen) == [ok |-> FALSE, upto |-> upto, elen |-> elen]
+RECURSIVE Utf8From(_, _)
+Utf8From(s, k) ==      \* k: 0-based offset of the next unchecked byte
+    IF k = Len(s) THEN [ok |-> TRUE]
+    ELSE LET ld == s[k + 1] w == WidthOf(ld) have == Len(s) - k IN
+         IF w = 0 THEN Utf8Bad(k, 1)
+         ELSE IF w = 1 THEN Utf8From(s, k + 1)
+         ELSE IF have < 2 THEN Utf8Bad(k, 0)
+         ELSE IF ~SecondOK(ld, s[k + 2]) THEN Utf8Bad(k, 1)
+         ELSE IF w = 2 THEN Utf8From(s, k + 2)
+         ELSE IF have < 3 THEN Utf8Bad(k, 0)
+         ELSE IF ~IsCont(s[k + 3]) THEN Utf8Bad(k, 2)
+         ELSE IF w = 3 THEN Utf8From(s, k + 3)
+         ELSE IF have < 4 THEN Utf8Bad(k, 0)
+         ELSE IF ~IsCont(s[k + 4]) THEN Utf8Bad(k, 3)
+         ELSE Utf8From(s, k + 4)
+Utf8Check(s) == Utf8From(s, 0)
+
 \* std: str::is_char_boundary (index 0-based, i = len is a boundary, i > len is not)
 IsCharBoundary(s, i) == i = 0 \/ i = Len(s) \/ (i < Len(s) /\ IsLead(s[i + 1]))
 
